@@ -162,6 +162,8 @@ CompFaults ==
 \cup {RunCase(Pad(n) \o <<"@component(\"~c\", {n: 1})", f>>, n + 2, "after-component-runtime") : n \in 0..3, f \in RunFaults}
 \cup {RunCase(Pad(n) \o <<"@component(\"~card\")", "@slot", "s", "@end", "@end", f>>, n + 6, "after-slots-runtime") : n \in 0..3, f \in RunFaults}
 \cup {RunCase(Pad(n) \o <<"@component(\"~c\", {n: " \o a \o "})">>, n + 1, "argument-runtime") : n \in 0..3, a \in {"zz", "1 / 0"}}
+\* an argument object that spans several lines: the fault is on the line of the failing value
+\cup {RunCase(Pad(n) \o <<"@component(\"~c\", {", "  m: 1,", "  n: " \o a, "})">>, n + 3, "argument-runtime-multiline") : n \in 0..3, a \in {"zz", "1 / 0", "1 + \"s\""}}
 
 \* every fault and truncation again in a directory that was healthy and loaded a moment before (same process, same paths)
 Healthy == SetToSeq({FileRec(m, Cat(GoodFiles[m]), "") : m \in DOMAIN GoodFiles})
